@@ -165,6 +165,7 @@ type input struct {
 	Raw    string `json:"raw,omitempty"`   // listener/channel: literal command-line string (template)
 	Want   string `json:"want"`            // accept | reject | any
 	Mutant bool   `json:"mutant,omitempty"`
+	NoCert bool   `json:"no_certificate,omitempty"` // server: the entry carries no certificate / private key
 }
 
 // classifyMutant gives a PRNG-made address the class (and expectation) a hand-written input of the
@@ -207,7 +208,11 @@ func classifyMutant(pos, a string) (class, want string) {
 }
 
 func (in input) key() string {
-	return strings.Join([]string{in.Pos, in.Class, in.Addr, in.Shape, in.Name, in.Fwd, in.Raw}, "|")
+	k := strings.Join([]string{in.Pos, in.Class, in.Addr, in.Shape, in.Name, in.Fwd, in.Raw}, "|")
+	if in.NoCert {
+		k += "|no-certificate"
+	}
+	return k
 }
 
 // class used in panic signatures: structural classes keep their name, all others collapse
@@ -281,6 +286,14 @@ func deterministicInputs() []input {
 				}
 				add(pos, class, ca[1], want)
 			}
+		}
+	}
+	// every server scheme once more without a certificate on the entry: a scheme that asks for encryption must then be
+	// refused (or still come up encrypted), a plain one is unaffected
+	for _, in := range append([]input{}, res...) {
+		if in.Pos == posServer && (in.Class == "documented" || in.Class == "extension" || in.Class == "unix-abs-path") {
+			in.Class, in.Want, in.NoCert = "no-certificate", "any", true
+			res = append(res, in)
 		}
 	}
 	// README L203: tcp://[::1]:8080 for channels
